@@ -14,6 +14,7 @@ import warnings
 
 import torch
 
+from .. import ride  # noqa: E402
 from .. import bmgen, probes, zoo
 
 ID = "C07"
@@ -27,7 +28,7 @@ ASSUMPTIONS = [
     "stack depth 'does not grow': depth at 8n queries <= depth at n queries + 8 frames, and <= 150 frames absolute "
     "(dyadic mode recursion is bounded by log2(span/tol), not by the number of queries)",
 ]
-REQUIRED_COUNTERS = ["queries", "sweep_cases", "subtol_queries", "same_gridpoint_queries", "sliver_queries", "sdeint_default_bm_runs",
+REQUIRED_COUNTERS = ["ride_c07_cache_insertions", "queries", "sweep_cases", "subtol_queries", "same_gridpoint_queries", "sliver_queries", "sdeint_default_bm_runs",
                      "cache0_queries", "depth_pairs", "evictions", "refinements"]
 OP_BUDGET = 3_000_000
 CASE_TIMEOUT = 1500
@@ -109,6 +110,7 @@ def cases(tier, seed):
         wr = crng.choice(["interval", "interval", "interval", "tree", "path", "reverse"])
         add(f"r{i}", kind="random", cfg=bmgen.random_config(crng, wrappers=(wr,), offgrid_ends_ok=True), hseed=crng.randrange(10 ** 9),
             cost=1)
+    out += ride.cases_for("C07", tier, seed)  # the repository's own tests under passive monitors
     return out
 
 
@@ -187,6 +189,8 @@ def _mk(case, n, t0=None):
 
 
 def run_case(case):
+    if case.get("kind") == "ride":
+        return ride.run_case(case)
     import torchsde
     kind = case["kind"]
     armed = Armed()
